@@ -69,18 +69,25 @@ def with_faults(cfg, r, p=0.5):
 def config(prop, seed, tier):
     r = random.Random(seed ^ 0x5EED)
     cfg = base_cfg(r, tier)
-    if prop == "C01":
-        cfg["initial"] = ["H"] * r.choice([1, 1, 2])
-        with_faults(cfg, r, 0.6)
-    elif prop == "C02":
-        cfg["initial"] = ["DH"] * r.choice([1, 1, 2])
-        with_faults(cfg, r, 0.6)
-    elif prop == "C03":
-        cfg["initial"] = ["SC"] * r.choice([1, 1, 2])
-        with_faults(cfg, r, 0.5)
-    elif prop == "C05":
-        cfg["initial"] = [r.choice(["H", "H", "DH", "SC"]) for _ in range(r.choice([1, 2]))]
-        with_faults(cfg, r, 0.4)
+    if prop in ("C01", "C02", "C03", "C05"):
+        from . import prov
+
+        if prop == "C01":
+            cfg["initial"] = ["H"] * r.choice([1, 1, 2])
+            with_faults(cfg, r, 0.6)
+            cfg["prov_kinds"] = ["H"]
+        elif prop == "C02":
+            cfg["initial"] = ["DH"] * r.choice([1, 1, 2])
+            with_faults(cfg, r, 0.6)
+            cfg["prov_kinds"] = ["DH"]
+        elif prop == "C03":
+            cfg["initial"] = ["SC"] * r.choice([1, 1, 2])
+            with_faults(cfg, r, 0.5)
+            cfg["prov_kinds"] = ["SC"]
+        else:
+            cfg["initial"] = [r.choice(["H", "H", "DH", "SC"]) for _ in range(r.choice([1, 2]))]
+            with_faults(cfg, r, 0.4)
+        prov.configure(cfg, r, tier)
     else:
         from . import registry
 
